@@ -16,6 +16,7 @@ import (
 
 	"cuelang.org/go/internal/par"
 	"cuelang.org/go/internal/robustio"
+	"cuelang.org/go/internal/simhook"
 	"cuelang.org/go/mod/modfile"
 	"cuelang.org/go/mod/modregistry"
 	"cuelang.org/go/mod/module"
@@ -117,10 +118,12 @@ func (c *Cache) Fetch(ctx context.Context, mv module.Version) (module.SourceLoc,
 		return module.SourceLoc{}, err
 	}
 	defer unlock()
+	simhook.At("modcache.Fetch:locked", dir)
 
 	// Check whether the directory was populated while we were waiting on the lock.
 	_, dirErr := c.downloadDir(mv)
 	if dirErr == nil {
+		simhook.Probe("modcache.Fetch:populated-while-waiting-for-lock")
 		return c.dirToLocation(dir), nil
 	}
 	_, dirExists := dirErr.(*downloadDirPartialError)
@@ -139,9 +142,12 @@ func (c *Cache) Fetch(ctx context.Context, mv module.Version) (module.SourceLoc,
 		}
 	}
 	if dirExists {
+		simhook.Probe("modcache.Fetch:stale-partial-directory-removed")
+		simhook.At("modcache.Fetch:before-removeall", dir)
 		if err := RemoveAll(dir); err != nil {
 			return module.SourceLoc{}, err
 		}
+		simhook.At("modcache.Fetch:after-removeall", dir)
 	}
 
 	partialPath, err := c.cachePath(mv, "partial")
@@ -162,6 +168,7 @@ func (c *Cache) Fetch(ctx context.Context, mv module.Version) (module.SourceLoc,
 	if err := os.MkdirAll(parentDir, 0777); err != nil {
 		return module.SourceLoc{}, err
 	}
+	simhook.At("modcache.Fetch:before-partial", dir)
 	// Upstream Go's modfetch uses a plain os.WriteFile here, but we hit
 	// transient Windows ERROR_ACCESS_DENIED on this path more often, likely
 	// because each testscript test starts with a cold module cache on an
@@ -170,16 +177,22 @@ func (c *Cache) Fetch(ctx context.Context, mv module.Version) (module.SourceLoc,
 	if err := robustio.WriteFile(partialPath, nil, 0666); err != nil {
 		return module.SourceLoc{}, err
 	}
+	simhook.At("modcache.Fetch:after-partial", dir)
 	if err := modzip.Unzip(dir, mv, zipfile); err != nil {
+		simhook.At("modcache.Fetch:unzip-failed", dir)
 		if rmErr := RemoveAll(dir); rmErr == nil {
+			simhook.At("modcache.Fetch:unzip-failed-dir-removed", dir)
 			os.Remove(partialPath)
 		}
 		return module.SourceLoc{}, err
 	}
+	simhook.At("modcache.Fetch:after-unzip", dir)
 	if err := os.Remove(partialPath); err != nil {
 		return module.SourceLoc{}, err
 	}
+	simhook.At("modcache.Fetch:after-remove-partial", dir)
 	makeDirsReadOnly(dir)
+	simhook.At("modcache.Fetch:after-readonly", dir)
 	return c.dirToLocation(dir), nil
 }
 
@@ -200,6 +213,7 @@ func (c *Cache) downloadZip(ctx context.Context, mv module.Version) (zipfile str
 		if _, err := os.Stat(zipfile); err == nil {
 			return zipfile, nil
 		}
+		simhook.At("modcache.downloadZip:zip-absent", zipfile)
 		logf("cue: downloading %s", mv)
 		unlock, err := c.lockVersion(mv)
 		if err != nil {
@@ -218,8 +232,10 @@ func (c *Cache) downloadZip1(ctx context.Context, mod module.Version, zipfile st
 	// Double-check that the zipfile was not created while we were waiting for
 	// the lock in downloadZip.
 	if _, err := os.Stat(zipfile); err == nil {
+		simhook.Probe("modcache.downloadZip1:zip-appeared-while-waiting-for-lock")
 		return nil
 	}
+	simhook.At("modcache.downloadZip1:locked", zipfile)
 
 	// Create parent directories.
 	if err := os.MkdirAll(filepath.Dir(zipfile), 0777); err != nil {
@@ -232,9 +248,11 @@ func (c *Cache) downloadZip1(ctx context.Context, mod module.Version, zipfile st
 	tmpPattern := filepath.Base(zipfile) + "*.tmp"
 	if old, err := filepath.Glob(filepath.Join(quoteGlob(filepath.Dir(zipfile)), tmpPattern)); err == nil {
 		for _, path := range old {
+			simhook.Probe("modcache.downloadZip1:stale-temp-zip-removed")
 			os.Remove(path) // best effort
 		}
 	}
+	simhook.At("modcache.downloadZip1:after-tmp-cleanup", zipfile)
 
 	// From here to the os.Rename call below is functionally almost equivalent to
 	// renameio.WriteToFile. We avoid using that so that we have control over the
@@ -244,6 +262,7 @@ func (c *Cache) downloadZip1(ctx context.Context, mod module.Version, zipfile st
 	if err != nil {
 		return err
 	}
+	simhook.At("modcache.downloadZip1:after-tempfile", zipfile)
 	defer func() {
 		if err != nil {
 			f.Close()
@@ -263,14 +282,18 @@ func (c *Cache) downloadZip1(ctx context.Context, mod module.Version, zipfile st
 	}
 	defer r.Close()
 	if _, err := io.Copy(f, r); err != nil {
+		simhook.At("modcache.downloadZip1:copy-failed", zipfile)
 		return fmt.Errorf("failed to get module zip contents: %v", err)
 	}
+	simhook.At("modcache.downloadZip1:after-copy", zipfile)
 	if err := f.Close(); err != nil {
 		return err
 	}
+	simhook.At("modcache.downloadZip1:after-close", zipfile)
 	if err := os.Rename(f.Name(), zipfile); err != nil {
 		return err
 	}
+	simhook.At("modcache.downloadZip1:after-rename", zipfile)
 	// TODO should we check the zip file for well-formedness?
 	// TODO: Should we make the .zip file read-only to discourage tampering?
 	return nil
@@ -291,8 +314,10 @@ func (c *Cache) fetchModFileData(ctx context.Context, mod module.Version) ([]byt
 	// acquiring the lock.
 	_, data, err = c.readDiskModFile(mod)
 	if err == nil {
+		simhook.Probe("modcache.fetchModFileData:file-appeared-while-waiting-for-lock")
 		return data, nil
 	}
+	simhook.At("modcache.fetchModFileData:locked", modfile)
 	return c.downloadModFile1(ctx, mod, modfile)
 }
 
